@@ -68,3 +68,20 @@ func Observe(w *world.World, ctx sdk.Context, chain string, os []Oracle, claim c
 		}
 	}
 }
+
+// SampleClaims returns one valid claim of every claim type for event nonce n (bridger left empty).
+// extMember must be a registered oracle's external address (oracle-set claims are checked against the index).
+func SampleClaims(chain string, n uint64, token string, receiver sdk.AccAddress, extMember string) map[string]cctypes.ExternalClaim {
+	ext := func(l string) string { return ExtAddr(chain, l) }
+	return map[string]cctypes.ExternalClaim{
+		"SendToFx":         SendToFxClaim(chain, n, 100+n, token, 7, ext("depositor"), receiver, "", ""),
+		"BridgeToken":      BridgeTokenClaim(chain, n, 100+n, ext("other-token"), "Other", "OTH", 6, ""),
+		"SendToExternal":   &cctypes.MsgSendToExternalClaim{EventNonce: n, BlockHeight: 100 + n, BatchNonce: 1, TokenContract: token, ChainName: chain},
+		"OracleSetUpdated": &cctypes.MsgOracleSetUpdatedClaim{EventNonce: n, BlockHeight: 100 + n, OracleSetNonce: 1, Members: []cctypes.BridgeValidator{{Power: 1000, ExternalAddress: extMember}}, ChainName: chain},
+		"BridgeCall": &cctypes.MsgBridgeCallClaim{ChainName: chain, EventNonce: n, BlockHeight: 100 + n, Sender: ext("depositor"), Refund: ext("refund"), TokenContracts: []string{token}, Amounts: []sdkmath.Int{sdkmath.NewInt(5)},
+			To: ext("callee"), Data: "", Value: sdkmath.ZeroInt(), Memo: "", TxOrigin: ext("origin")},
+		"BridgeCallResult": &cctypes.MsgBridgeCallResultClaim{ChainName: chain, EventNonce: n, BlockHeight: 100 + n, Nonce: 1, TxOrigin: ext("origin"), Success: true, Cause: ""},
+	}
+}
+
+var ClaimTypes = []string{"SendToFx", "BridgeToken", "SendToExternal", "OracleSetUpdated", "BridgeCall", "BridgeCallResult"}
